@@ -435,6 +435,52 @@ def PSt.resetLexerFirst (p : PSt) : PSt :=
   let p2 := p1.stop
   { lex := p2.lex, exprs := [], co := none }
 
+/-! ### the statements of `Reset` / `ResetAddNewInput` as a list of steps
+
+The four things the two functions do that matter for the next text, in ANY order (the order of
+the Go statements is regenerated into `Generated.ResetOrder`; `Props/C13` proves which orders
+give the result of `PSt.reset` / `PSt.resetAddNewInput` and that the code's is one of them). -/
+
+inductive Step where
+  | stop          -- `if p.stop != nil { p.stop() }`: the suspended coroutine unwinds
+  | clearReply    -- `p.sendMe = &ParserReply{}`
+  | lexReset      -- `p.lexer.Reset()`
+  | lexAdd        -- `p.lexer.AddNextStream(s)`
+  deriving DecidableEq, Repr
+
+/-- the name of a step in `Generated.ResetOrder` (other entries — `assign:next`, `assign:stop`,
+`assign:yield` — do not touch what the next parse reads) -/
+def stepOf : String → Option Step
+  | "call:stop" => some .stop
+  | "assign:sendMe" => some .clearReply
+  | "call:lexer.Reset" => some .lexReset
+  | "call:lexer.AddNextStream" => some .lexAdd
+  | _ => none
+
+def PSt.step (piece : List Char) (p : PSt) : Step → PSt
+  | .stop => p.stop
+  | .clearReply => { p with exprs := [] }
+  | .lexReset => { p with lex := p.lex.reset }
+  | .lexAdd => { p with lex := p.lex.addNextStream piece }
+
+def PSt.exec (piece : List Char) (p : PSt) (l : List Step) : PSt := l.foldl (PSt.step piece) p
+
+/-- the orders that respect the protocol: the coroutine is stopped before the lexer is touched and
+before the reply accumulator is replaced (the unwinding coroutine reads the lexer and appends to
+`sendMe.Expr`), and the lexer is reset before it gets the new stream -/
+def resetOrders : List (List Step) :=
+  [[.stop, .clearReply, .lexReset], [.stop, .lexReset, .clearReply]]
+
+def resetAddOrders : List (List Step) :=
+  [[.stop, .clearReply, .lexReset, .lexAdd], [.stop, .lexReset, .clearReply, .lexAdd],
+   [.stop, .lexReset, .lexAdd, .clearReply]]
+
+/-- the rule itself, on a list of steps -/
+def Step.okOrder (l : List Step) : Bool :=
+  let beforeStop := l.takeWhile (· != .stop)
+  l.contains .stop && beforeStop.isEmpty &&
+  !((l.takeWhile (· != .lexReset)).contains .lexAdd)
+
 /-! ### routes and the delivery of a text -/
 
 /-- the ways the public API offers to start a new text on a used parser -/
